@@ -357,9 +357,10 @@ pub fn coordinator_main(check: &Check, tier: Tier) -> i32 {
             Tier::Thorough => 1500,
         }),
     );
+    // hang detection is by wall clock and must not fire on a merely overloaded machine
     let chunk_timeout = Duration::from_secs(match tier {
-        Tier::Quick => 90,
-        Tier::Thorough => 600,
+        Tier::Quick => 600,
+        Tier::Thorough => 1800,
     });
     let id = check.id.to_string();
     let capped = Arc::new(Mutex::new(0u64));
@@ -416,6 +417,9 @@ pub fn coordinator_main(check: &Check, tier: Tier) -> i32 {
         });
     }
     let distinct: BTreeSet<u64> = total.distinct.iter().cloned().collect();
+    if samples.is_empty() {
+        samples.push(json!({"batch": batches.first().map(|b| b.name).unwrap_or(""), "case": "no run of this batch recorded a sample (all runs were skipped by the wall cap or ended before sampling)"}));
+    }
 
     // triage violations against the known-findings file
     let replay_dir = verif_root().join("replays");
